@@ -61,6 +61,7 @@ import (
 	past "github.com/mna/pigeon/ast"
 
 	"pvharness/pvpeg"
+	"pvharness/pvref"
 )
 
 type flagSet struct {
@@ -118,6 +119,12 @@ type gram struct {
 	sites   int
 }
 
+// refMode: see the -ref flag
+var refMode bool
+
+// utf8Heavy: see the -utf8 flag
+var utf8Heavy bool
+
 type failure struct {
 	kind, detail, name, input string
 	flags                     []string
@@ -134,6 +141,8 @@ func main() {
 	batch := flag.Int("batch", 16, "grammars per scratch module")
 	jobs := flag.Int("j", 16, "parallel pigeon / binary runs")
 	keep := flag.Bool("keep", false, "keep the scratch modules")
+	flag.BoolVar(&refMode, "ref", false, "reference mode: grammars without code predicates, two flag sets each, raw (also invalid UTF-8) inputs parsed with AllowInvalidUTF8; the match verdict of every input is compared with the reference interpreter pvref on the AST that was printed")
+	flag.BoolVar(&utf8Heavy, "utf8", false, "with -ref: classes that list U+FFFD (raw or escaped), so that stray input bytes are matched by them")
 	flag.Parse()
 	if flag.NArg() > 0 || *n < 0 || *batch < 1 || *jobs < 1 {
 		fmt.Fprintln(os.Stderr, "usage: pve2e [-seed S] [-n N] [-pigeon BIN] [-include-known] [-out DIR] [-all-flags] [-batch B] [-j J]")
@@ -220,6 +229,63 @@ func unicodeClassGrammar(r *rand.Rand, pkg string, av pvpeg.Avoid) *past.Grammar
 	return g
 }
 
+// addShadowLeaf adds two rules that use the SAME label name, as grammars written by hand do all the time (first:, rest:,
+// v: in every rule): ShadowP <- lsh:[a-z]+ "=" w:ShadowN {..} and the leaf ShadowN <- lsh:[0-9]+ {..}, and makes ShadowP an
+// alternative of the entry rule. Labels are distinct within each rule. Under -optimize-grammar the leaf is inlined below
+// `w:`, a scope of its own: its block still receives exactly its own lsh, the block of ShadowP its own lsh and w.
+func addShadowLeaf(r *rand.Rand, g *past.Grammar) {
+	for _, rl := range g.Rules {
+		if rl.Name.Val == "ShadowP" || rl.Name.Val == "ShadowN" {
+			return
+		}
+	}
+	id := func(n string) *past.Identifier { return past.NewIdentifier(past.Pos{}, n) }
+	ref := func(n string) *past.RuleRefExpr {
+		e := past.NewRuleRefExpr(past.Pos{})
+		e.Name = id(n)
+		return e
+	}
+	lab := func(l string, e past.Expression) *past.LabeledExpr {
+		x := past.NewLabeledExpr(past.Pos{})
+		x.Label, x.Expr = id(l), e
+		return x
+	}
+	act := func(e past.Expression, code string) *past.ActionExpr {
+		a := past.NewActionExpr(past.Pos{})
+		a.Expr, a.Code = e, past.NewCodeBlock(past.Pos{}, code)
+		return a
+	}
+	plus := func(e past.Expression) *past.OneOrMoreExpr {
+		p := past.NewOneOrMoreExpr(past.Pos{})
+		p.Expr = e
+		return p
+	}
+	name := []string{"lsh", "v", "first", "lshval"}[r.Intn(4)]
+	av := pvpeg.Avoid{}
+	digits := pvpeg.BuildClass(r, []pvpeg.ClassItem{{Lo: '0', Hi: '9', IsRange: true}}, false, false, av)
+	letters := pvpeg.BuildClass(r, []pvpeg.ClassItem{{Lo: 'a', Hi: 'z', IsRange: true}}, false, false, av)
+	leaf := past.NewRule(past.Pos{}, id("ShadowN"))
+	leaf.Expr = act(lab(name, plus(digits)), "{ return pvJoin(\"shn\", "+name+"), nil }")
+	pair := past.NewRule(past.Pos{}, id("ShadowP"))
+	seq := past.NewSeqExpr(past.Pos{})
+	var inner past.Expression = ref("ShadowN")
+	switch r.Intn(3) {
+	case 0:
+		// below a repetition instead of directly below the label
+		inner = plus(ref("ShadowN"))
+	case 1:
+		o := past.NewZeroOrOneExpr(past.Pos{})
+		o.Expr = ref("ShadowN")
+		inner = o
+	}
+	seq.Exprs = []past.Expression{lab(name, plus(letters)), past.NewLitMatcher(past.Pos{}, "="), lab("wsh", inner)}
+	pair.Expr = act(seq, "{ return pvJoin(\"shp\", "+name+", wsh), nil }")
+	ch := past.NewChoiceExpr(past.Pos{})
+	ch.Alternatives = []past.Expression{g.Rules[0].Expr, ref("ShadowP")}
+	g.Rules[0].Expr = ch
+	g.Rules = append(g.Rules, pair, leaf)
+}
+
 // addSharedCodeLeaf adds a reference-free rule consisting of a code predicate and refers to it from the entry rule
 // AND from a recursive rule: under -optimize-grammar the leaf is inlined at both places while both rules survive
 // (the recursive one cannot be inlined), so one source code block ends up in two rules and needs a method in each.
@@ -272,11 +338,16 @@ func build(seed int64, i int, av pvpeg.Avoid, recv string) (*past.Grammar, strin
 	}
 	cfg.NoThrow = r.Intn(2) == 0
 	cfg.NoState = r.Intn(3) == 0
-	if r.Intn(5) == 0 {
+	if r.Intn(5) == 0 && !refMode {
 		cfg.LeftRec = true
 		cfg.NoState = true // D6
 	}
-	if r.Intn(2) == 0 {
+	if refMode {
+		// what matches must not depend on Go code: the reference interpreter does not run it
+		cfg.NoCodePreds = true
+		cfg.Utf8Heavy = utf8Heavy
+	}
+	if r.Intn(2) == 0 && !refMode {
 		// feature placement: one kind of code-bearing expression occurs ONLY in one kind of context (what the
 		// builder emits depends on which features it saw and where: state blocks only inside predicates, ...)
 		kinds := []int{pvpeg.KState, pvpeg.KState, pvpeg.KState, pvpeg.KState, pvpeg.KAndCode, pvpeg.KNotCode, pvpeg.KAction, pvpeg.KThrow, pvpeg.KLabeled}
@@ -292,8 +363,11 @@ func build(seed int64, i int, av pvpeg.Avoid, recv string) (*past.Grammar, strin
 		}
 	}
 	g := pvpeg.Gen(r, cfg)
-	if r.Intn(4) == 0 && !cfg.LeftRec {
+	if r.Intn(4) == 0 && !cfg.LeftRec && !refMode {
 		addSharedCodeLeaf(r, g)
+	}
+	if r.Intn(3) == 0 && !cfg.LeftRec && !refMode {
+		addShadowLeaf(r, g)
 	}
 	st := pvpeg.Styles[r.Intn(len(pvpeg.Styles))]
 	st.Avoid = av
@@ -301,7 +375,7 @@ func build(seed int64, i int, av pvpeg.Avoid, recv string) (*past.Grammar, strin
 	seen := map[string]bool{}
 	var inputs []string
 	add := func(s string) {
-		if !seen[s] && len(inputs) < 8 {
+		if !seen[s] && (len(inputs) < 8 || refMode && len(inputs) < 10) {
 			seen[s] = true
 			inputs = append(inputs, s)
 		}
@@ -311,7 +385,18 @@ func build(seed int64, i int, av pvpeg.Avoid, recv string) (*past.Grammar, strin
 	}
 	for k := 0; k < 2; k++ {
 		s, _ := pvpeg.Mutate(r, pvpeg.Sentence(r, g), 5+r.Intn(4))
+		if refMode {
+			add(s) // raw: stray bytes included (the parse runs with AllowInvalidUTF8)
+			continue
+		}
 		add(strings.ToValidUTF8(s, "?"))
+	}
+	if refMode {
+		s := pvpeg.Sentence(r, g)
+		if len(s) > 0 {
+			k := r.Intn(len(s))
+			add(s[:k] + string([]byte{[]byte{0xff, 0xc0, 0xe2, 0x80}[r.Intn(4)]}) + s[k:])
+		}
 	}
 	add("")
 	if cfg.LeftRec {
@@ -360,7 +445,11 @@ func makeGram(seed int64, i int, av pvpeg.Avoid, all bool) *gram {
 	} else {
 		seenMask := map[int]bool{}
 		sets0mask := 0
-		for len(sets) < 4 {
+		nsets := 4
+		if refMode {
+			nsets = 2
+		}
+		for len(sets) < nsets {
 			m := r.Intn(32)
 			if len(sets) == 1 {
 				// the template guards are keyed on -optimize-parser: every grammar is built both ways
@@ -464,7 +553,7 @@ func runBatch(grams []*gram, pigeon string, jobs int, keep bool, rep *pvpeg.Repo
 			return
 		}
 		u.gen, _ = os.ReadFile(filepath.Join(pdir, "parser.go"))
-		os.WriteFile(filepath.Join(pdir, "support.go"), []byte(pvpeg.SupportFile(u.g.pkg, u.g.inputs)), 0o644)
+		os.WriteFile(filepath.Join(pdir, "support.go"), []byte(pvpeg.SupportFileOpts(u.g.pkg, u.g.inputs, refMode)), 0o644)
 		main := fmt.Sprintf("// Code generated by pve2e; DO NOT EDIT.\n\npackage main\n\nimport (\n\t\"os\"\n\n\tp \"e2e/%s/%s\"\n)\n\nfunc main() { p.PvRun(os.Stdout) }\n", u.dir, u.g.pkg)
 		os.WriteFile(filepath.Join(mod, u.dir, "main.go"), []byte(main), 0o644)
 		u.ok = true
@@ -591,6 +680,59 @@ func runBatch(grams []*gram, pigeon string, jobs int, keep bool, rep *pvpeg.Repo
 			}
 			if a != b {
 				fail(u, "result-mismatch", fmt.Sprintf("%s between [%s] and [%s]\n%s", what, ref.fs, u.fs, diffLines(a, b)))
+			}
+		}
+	}
+	// 6. (-ref) the match verdict of every input against the reference interpreter on the AST that was printed
+	if refMode {
+		for _, g := range grams {
+			if len(g.ast.Rules) == 0 {
+				continue
+			}
+			prog := pvref.Compile(g.ast)
+			entry := g.ast.Rules[0].Name.Val
+			want := make([]int, len(g.inputs)) // 1 match, 0 no match, -1 not decided
+			for k, in := range g.inputs {
+				res := prog.Run(entry, in, 200000)
+				switch {
+				case res.Exhausted:
+					want[k] = -1
+				case res.OK:
+					want[k] = 1
+				}
+			}
+			for _, u := range g.units {
+				if !u.ran {
+					continue
+				}
+				lines := strings.Split(strings.TrimSpace(u.output), "\n")
+				if len(lines) != len(g.inputs) {
+					fail(u, "run-crash", fmt.Sprintf("%d result lines for %d inputs:\n%s", len(lines), len(g.inputs), u.output))
+					continue
+				}
+				for k, l := range lines {
+					got := -1
+					switch {
+					case strings.Contains(l, " ok val="):
+						got = 1
+					case strings.HasSuffix(l, " budget"), strings.Contains(l, "pvErr"):
+						// the budget ran out / an action reported an error of its own: the verdict is not visible
+					case strings.Contains(l, " fail val="):
+						if strings.Contains(l, "no match found") {
+							got = 0
+						}
+					}
+					rep.Count("reference_verdicts", map[int]string{-1: "undecided", 0: "no-match", 1: "match"}[want[k]], 1)
+					if got < 0 || want[k] < 0 {
+						continue
+					}
+					rep.Count("reference_compared", "inputs", 1)
+					if got != want[k] {
+						fail(u, "reference-mismatch", fmt.Sprintf("input %q [%s]: the generated parser says %s, the reference interpreter on the grammar's AST says %s\n%s",
+							g.inputs[k], u.fs, map[int]string{0: "no match", 1: "match"}[got], map[int]string{0: "no match", 1: "match"}[want[k]], l))
+						break
+					}
+				}
 			}
 		}
 	}
